@@ -62,13 +62,62 @@ def run(cells, irs, fn):
     jobs = [(c, ir) for c in cells for ir in irs]
     res = common.pmap(_eval, jobs)
     fails, raised = {}, 0
+    base = _raise_baseline()
     for (cell, ir), r in zip(jobs, res):
         for key, what, _extra in r:
             if key == "raises":
                 raised += 1
+                # an evaluation that raises is out of the contract's domain ("whenever it returns") -- but only if it
+                # already raised on the committed tree: an input that USED to come back and now raises is a violation
+                h = _raise_hash(cell, ir, what)
+                if RAISE_CTX.get("write"):
+                    _NEW_RAISES.add(h)
+                elif base is not None and h not in base:
+                    fmt = cell[0] if isinstance(cell, (list, tuple)) and cell else str(cell)
+                    fails.setdefault(("newly-raises", str(fmt), what.split(":")[0]), (cell, ir, "this evaluation returned on the committed tree and now raises %s" % what[:200]))
                 continue
             fails.setdefault(tuple(key) + (("shape=" + doc_shape(ir),) if doc_shape(ir) else ()), (cell, ir, what))
     return len(jobs), raised, fails
+
+
+# ---- baseline of evaluations that raise on the committed tree (baseline/raises.json, written by --write-baseline)
+RAISE_CTX = {}  # prop=..., write=bool ; set by the check before calling run()
+_NEW_RAISES = set()
+
+
+def _raise_hash(cell, ir, what):
+    import hashlib
+
+    return hashlib.sha1((json.dumps(cell, default=str, sort_keys=True) + json.dumps(ir, default=str, sort_keys=True) + what.split(":")[0]).encode("utf-8")).hexdigest()[:16]
+
+
+def _raise_path():
+    import os
+
+    return os.path.join(common.VERIF, "baseline", "raises.json")
+
+
+def _raise_baseline():
+    import os
+
+    prop = RAISE_CTX.get("prop")
+    if not prop or not os.path.exists(_raise_path()):
+        return None
+    d = json.load(open(_raise_path()))
+    return set(d[prop]) if prop in d else None
+
+
+def flush_raise_baseline():
+    """--write-baseline: the set of raising evaluations of this tier is ADDED to the property's baseline set"""
+    import os
+
+    prop = RAISE_CTX.get("prop")
+    if not prop or not RAISE_CTX.get("write"):
+        return
+    d = json.load(open(_raise_path())) if os.path.exists(_raise_path()) else {}
+    d[prop] = sorted(set(d.get(prop, [])) | _NEW_RAISES)
+    with open(_raise_path(), "wt") as f:
+        json.dump(d, f, indent=0, sort_keys=True)
 
 
 def doc_shape(ir):
